@@ -91,7 +91,8 @@ func ReadPrivateKeyFromHex(Dhex string) (*sm2.PrivateKey,error) {
 
 
 func WritePrivateKeyToHex(key *sm2.PrivateKey) string {
-	return key.D.Text(16)
+	// whole bytes: Text(16) drops a leading zero nibble and then cannot be read back by hex.DecodeString
+	return hex.EncodeToString(key.D.Bytes())
 }
 
 func ReadPublicKeyFromHex(Qhex string) (*sm2.PublicKey, error) {
